@@ -19,7 +19,7 @@ use crate::rules::require::{is_require_call, match_path_require_call, PathLocato
 use crate::rules::{
     Context, ContextBuilder, FlawlessRule, ReplaceReferencedTokens, RuleProcessResult,
 };
-use crate::utils::Timer;
+use crate::utils::{self, Timer};
 use crate::{DarkluaError, Resources};
 
 use super::BundleOptions;
@@ -103,7 +103,8 @@ impl<'a, 'b, 'resources, PathLocatorImpl: PathLocator>
             .path_locator
             .find_require_path(&literal_require_path, &self.source)
         {
-            Ok(path) => path,
+            // a file must be identified by one path, however the require reaches it
+            Ok(path) => utils::normalize_path(path),
             Err(err) => {
                 self.errors.push(err.to_string());
                 return None;
